@@ -209,6 +209,73 @@ def de_contract(A, x):
     txt += "    ensures\n" + "\n".join(ens) + "\n        //#-\n"
     return txt
 
+# ---- PutObject::deserialize_http_multipart (POST form, C10) -----------------------------------------------------------------------
+def multipart_contract(A):
+    """an accepted upload reaches the backend as an object write whose bucket, key, metadata and header-equivalent fields are
+    those of the form: every header-bound member of PutObject's input comes from the form field named like the header
+    (lower-case), the key from the field `key`, the bucket from the path, metadata from the x-amz-meta-* fields, the body and its
+    length from the file part. Content-Length is not a form field (the file's length is used)."""
+    x = "PutObject"; S = "PutObjectInput"
+    code, pat, inp, _ = op_model(A, x)
+    ens, oks = [], []
+    M = "m"
+    for mname, m in sorted(inp.items()):
+        kind, wire = member_binding(A, m)
+        f = field_of(A, S, mname)
+        lab = f"        //# C10:form.PutObject.{mname}"
+        if f is None: continue
+        fname, fty = f
+        opt, inner = split_opt(fty)
+        tgt = shape(A, m["target"])
+        if kind == "label":
+            if norm(mname) == "bucket":
+                ens += [lab, "        ret matches Ok(i) ==> Some(i.bucket@) == old(req).s3ext.s3_path->Some_0.bucket_only(),"]
+            else:
+                d = f"http::dec_field::<{inner}>({M}, \"key\"@)"
+                ens += [lab, f"        ret matches Ok(i) ==> ({d} matches Ok(Some(v)) && v == i.{fname}),"]
+                oks.append(f"({d} matches Ok(o) && o is Some)")
+        elif kind == "header":
+            if wire == "content-length":
+                ens += [lab + "_is_the_length_of_the_file_part",
+                        f"        ret matches Ok(i) ==> i.{fname} == (if old(req).s3ext.vec_stream->Some_0.len() == 0 {{ None::<i64> }} else {{ Some(old(req).s3ext.vec_stream->Some_0.len() as i64) }}),"]
+                continue
+            if tgt.get("type") == "timestamp":
+                fmt = ts_format(A, m, "HttpDate")
+                d = f"http::dec_field_timestamp({M}, \"{wire}\"@, TimestampFormat::{fmt})"
+            else:
+                d = f"http::dec_field::<{inner}>({M}, \"{wire}\"@)"
+            ens += [lab, f"        ret matches Ok(i) ==> ({d} matches Ok(v) && v == i.{fname}),"]
+            oks.append(f"{d} is Ok")
+        elif kind == "prefix":
+            ens += [lab, f"        ret matches Ok(i) ==> (match i.{fname} {{ Some(md) => md.mview() == http::meta_of({M}.fview()) && !(md.mview() =~= vstd::map::Map::<Seq<char>, Seq<char>>::empty()), None => http::meta_of({M}.fview()) =~= vstd::map::Map::<Seq<char>, Seq<char>>::empty() }}),"]
+        elif kind == "payload":
+            ens += [lab + "_is_the_file_part", f"        ret matches Ok(i) ==> i.{fname} == Some(StreamingBlob::of_vec_stream(old(req).s3ext.vec_stream->Some_0)),"]
+    ens += ["        //# C10:form.PutObject.accepted_when_every_field_decodes",
+            f"        ({' && '.join(oks)} && old(req).s3ext.vec_stream->Some_0.len() <= i64::MAX as nat) ==> ret is Ok,"]
+    sig = ("    requires\n        old(req).s3ext.s3_path matches Some(p) && p.bucket_only() is Some,\n        old(req).s3ext.vec_stream is Some,\n"
+           "    ensures\n" + "\n".join(ens) + "\n        //#-\n")
+    inv = ("    invariant\n"
+           "        VERUS_ghost_iter.seq().map_values(|p: &(String, String)| (p.0@, p.1@)) == m.fview(),\n"
+           "        0 <= VERUS_ghost_iter.index@ <= VERUS_ghost_iter.seq().len(),\n"
+           "        //# C10:form.PutObject.metadata_so_far\n"
+           "        metadata.mview() == http::meta_of(m.fview().take(VERUS_ghost_iter.index@)),\n")
+    hint = ("    proof {\n"
+            "        let i = VERUS_ghost_iter.index@ as int;\n"
+            "        let f = m.fview();\n"
+            "        assert(f.len() == VERUS_ghost_iter.seq().len());\n"
+            "        assert(f[i] == VERUS_ghost_iter.seq().map_values(|p: &(String, String)| (p.0@, p.1@))[i]);\n"
+            "        assert(f[i] == (name@, value@));\n"
+            "        assert(f.take(i + 1).drop_last() =~= f.take(i));\n"
+            "        assert(f.take(i + 1).last() == f[i]);\n"
+            "        axiom_strip_prefix_str(name@, \"x-amz-meta-\");\n"
+            "    }\n")
+    start = "    proof { assert(m.fview().take(0) =~= Seq::<http::Fld>::empty()); }\n"
+    end = "    proof { assert(m.fview().take(m.fview().len() as int) =~= m.fview()); }\n"
+    return [{"kind": "sig", "text": sig}, {"kind": "loop", "n": 1, "text": inv},
+            {"kind": "before", "n": 1, "anchor": "if let Some(key) = name.strip_prefix(\"x-amz-meta-\") {", "text": hint},
+            {"kind": "before", "n": 1, "anchor": "for (name, value) in m.fields() {", "text": start},
+            {"kind": "before", "n": 1, "anchor": "if metadata.is_empty() { None } else { Some(metadata) }", "text": end}]
+
 # ---- serialize_http --------------------------------------------------------------------------------------------------------------
 def ser_parts(A, x):
     """(expected pairs expression, ok-conjuncts, body expression, status expression) over the parameter `x`"""
@@ -338,9 +405,9 @@ def extract_specs(name, ctx):
             specs.append({"id": f"ser_{x}", "file": OPS_F, "item": f"impl {x}/fn serialize_http", "rewrites": "attr,ret,argname", "wrap": f"    impl {x} {{"})
             C[f"ser_{x}"] = [{"kind": "sig", "text": ser_contract(A, x, has_x)}]
             if x == "PutObject":
-                specs.append({"id": "shim_PutObject_multipart", "text":
-                    "    impl PutObject {\n        /// POST form variant (VU-post)\n        #[verifier::external_body]\n"
-                    "        pub fn deserialize_http_multipart(req: &mut http::Request, m: http::Multipart) -> (r: S3Result<PutObjectInput>)\n        { unimplemented!() }\n    }"})
+                specs.append({"id": "de_multipart_PutObject", "file": OPS_F, "item": "impl PutObject/fn deserialize_http_multipart",
+                              "rewrites": "attr,ret,forcontinue", "wrap": "    impl PutObject {"})
+                C["de_multipart_PutObject"] = multipart_contract(A)
         if A["ops"]: specs.append({"id": "modclose_end", "text": "    }"})
         ctx["info"]["functions_under_contract"] = 2 * len(A["ops"])
         return specs, C
